@@ -1576,7 +1576,9 @@ class CompiledType(compiler.CompiledType):
 def get_tag_no_encoding(member):
     value = (member.tag[0] & ~Encoding.CONSTRUCTED)
 
-    return bytearray([value]) + member.tag[1:]
+    # Tag numbers above 30 use as few base 128 octets as possible, so
+    # more octets means a higher tag number.
+    return (value, len(member.tag), member.tag[1:])
 
 
 class Compiler(compiler.Compiler):
